@@ -23,4 +23,12 @@ noncomputable def realT : Transc ℝ where
   trunc := fun x => if 0 ≤ x then ⌊x⌋ else ⌈x⌉
   ofInt := fun z => (z : ℝ)
 
+/-- clamping a radicand at `0` does not change its real square root (both sides are `0` for a
+    non-positive radicand): `np.sqrt(max(a, 0.0))` and `np.sqrt(a)` agree over ℝ. -/
+theorem sqrt_maxV_zero (a : ℝ) : Real.sqrt (maxV 0 a) = Real.sqrt a := by
+  unfold maxV
+  split_ifs with h
+  · rfl
+  · rw [Real.sqrt_zero, Real.sqrt_eq_zero_of_nonpos (not_lt.1 h)]
+
 end Umap
